@@ -2,7 +2,7 @@
 import random
 
 from .. import refcal as R
-from ..batch import run_lines, BatchError
+from ..batch import run_lines, run_args, BatchError
 from ..core import Sub
 from .common import Viol, boundary
 
@@ -304,6 +304,16 @@ def rounds(ctx, shard, nshards):
             if o != x:
                 V.add(tag, {"args": args, "in": i, "exp": x, "kind": "round"}, expected=x, actual=o,
                       weight=len(spec["txt"]) * 10**7 + n)
+        # the value as an argument (`dround DATE SPEC`, own path in main()): two of the inputs
+        for j in sorted(set((0, len(ins) // 2))):
+            if j >= len(exps) or exps[j] is None:
+                continue
+            r = run_args(ctx.build, "dround", args[:args.index("--") + 1] + [ins[j]] + args[args.index("--") + 1:])
+            o = (r.lines() or [""])[0]
+            sub.evaluations += 1
+            if r.crashed or o != exps[j]:
+                V.add("arg:" + tag, {"args": args, "in": ins[j], "exp": exps[j], "kind": "round", "route": "arg"},
+                      expected=exps[j], actual=r.brief() if r.crashed else o)
         # idempotence: rounding the results again (without --next) changes nothing
         res = [o for o, x in zip(out, exps) if o and x is not None and o == x]
         if res:
@@ -375,5 +385,11 @@ def replay(ctx, subname, case):
         except BatchError as e:
             return {"detail": str(e), "result": e.result.brief()}
         return None
+    if case.get("route") == "arg":
+        a = case["args"]
+        r = run_args(ctx.build, "dround", a[:a.index("--") + 1] + [case["in"]] + a[a.index("--") + 1:])
+        o = (r.lines() or [""])[0]
+        return None if (o == case["exp"] and not r.crashed) else {"in": case["in"], "route": "argument",
+                                                                 "expected": case["exp"], "actual": o}
     out, _ = run_lines(ctx.build, "dround", case["args"], [case["in"]])
     return None if out[0] == case["exp"] else {"args": case["args"], "in": case["in"], "expected": case["exp"], "actual": out[0]}
